@@ -27,7 +27,7 @@ MANIFEST = {
                  'granularity inside the package with at most c preemptions '
                  '(iterative preemption bounding, CHESS scheme); per-thread '
                  'results compared with sequential runs',
-    'text': 'For 18 templates (one per block tag, incl. sort_expr with '
+    'text': 'For 20 templates (one per block tag, incl. sort_expr with '
             'per-thread keys, batched in, with only, try/raise, tree) two real threads '
             'render the same template object with thread-specific '
             'namespaces under a scheduler that owns every line event in '
@@ -125,6 +125,12 @@ TEMPLATES = {
             '<dtml-var x></dtml-with>',
     'withonly': '<dtml-with o only><dtml-var x><dtml-var y missing="-">'
                 '</dtml-with><dtml-var y>',
+    'withmaponly': '<dtml-with m mapping only><dtml-var x><dtml-var y '
+                   'missing="-"></dtml-with><dtml-with "_.namespace(q=x)" '
+                   'only><dtml-var q></dtml-with>',
+    'insortfn': '<dtml-in seq sort="k/by"><dtml-var k><dtml-var j>,'
+                '</dtml-in>|<dtml-in seq sort_expr="sf"><dtml-var k>,'
+                '</dtml-in>',
     'unless': '<dtml-unless c>u<dtml-var x></dtml-unless><dtml-comment>'
               '<dtml-var x></dtml-comment>&dtml.url_quote-y;',
     'let': '<dtml-let z=x w="y"><dtml-var z><dtml-var w></dtml-let>',
@@ -157,7 +163,10 @@ def namespace(name, i):
     seqs = [[E(2, 1), E(1, 2), E(3, 0), E(2, 0)],
             [E(5, 9), E(7, 8), E(6, 7)],
             [E(1, 1)]]
-    ns = {'x': 'x' + tag, 'y': 'y<' + tag, 'c': 'c' + tag if i != 1 else '',
+    def by(a, b, sign=(1, -1, 1)[i]):
+        return sign * ((a > b) - (a < b))
+    ns = {'by': by, 'sf': ('k/by', 'j/by', 'k')[i],
+          'x': 'x' + tag, 'y': 'y<' + tag, 'c': 'c' + tag if i != 1 else '',
           'seq': seqs[i], 'sk': ('k', 'j', 'k')[i], 'rv': i == 1,
           'st': (1, 2, 1)[i], 'o': o, 'm': {'x': 'mx' + tag}, 'boom': boom,
           'lst': [], 'sub': HTML('[<dtml-var x>]'),
@@ -223,6 +232,7 @@ SMALL_SITES = {
     'expr': ['DT_Util.py', 'ustr.py'],
     'with': ['DT_With.py', 'DT_Util.py'],
     'withonly': ['DT_With.py', 'DT_Util.py'],
+    'withmaponly': ['DT_With.py', 'DT_Util.py'],
     'let': ['DT_Let.py', 'DT_Util.py'],
     'try': ['DT_Try.py', 'ustr.py'],
     'raise': ['DT_Try.py', 'DT_Raise.py', 'ustr.py'],
@@ -239,7 +249,8 @@ BIG_SITES = {
     'tree': ['TreeTag.py'],
     'sub': ['DT_String.py'],
 }
-SMALL = ('var', 'expr', 'if', 'tiny', 'with', 'withonly', 'unless', 'let',
+SMALL = ('var', 'expr', 'if', 'tiny', 'with', 'withonly', 'withmaponly',
+         'unless', 'let',
          'try', 'raise', 'call', 'insort')
 
 
